@@ -8,6 +8,8 @@ package main
 //   value  nil | b:0|1 | i:<n> i8: i16: i32: i64: u: u8: u16: u32: u64: up: | f32:x<bits> f64:x<bits> | s:x<hex>
 //          | st:<k> | sl:nil sl:e sl:<k> | mp:nil mp:<k> | fn:nil fn:<k> | ch:nil ch:<k> | np:<ty> | p(<value>)
 //          | pa(<value>) (pointer to an interface{} variable holding <value>)
+//          | nd:<k> er:<k> bd:<k> (structs whose pointer type has a nil-tolerant String(), a nil-tolerant Error(),
+//            a String() that panics on a nil receiver)
 //          | c64:<k> c128:<k> (complex) | ar:<k> ([2]int) | usp:nil usp:<k> (unsafe.Pointer)
 //          | just(<value>) | ja(<value>) | jg(<value>) | none          (nested Maybe values)
 // The Maybe is built once per case; the ops are MaybeDef methods (plus the additional exported methods of the
@@ -31,6 +33,27 @@ import (
 )
 
 type c01S struct{ K int }
+
+// struct types whose POINTER type has methods fmt calls (even on a nil receiver)
+type c01Node struct{ K int } // nil-tolerant String()
+type c01Err struct{ K int }  // nil-tolerant Error()
+type c01Bad struct{ K int }  // String() dereferences its receiver (panics on nil; fmt recovers and prints <nil>)
+
+func (n *c01Node) String() string {
+	if n == nil {
+		return "[]"
+	}
+	return "[" + strconv.Itoa(n.K) + "]"
+}
+
+func (e *c01Err) Error() string {
+	if e == nil {
+		return "no error"
+	}
+	return "err" + strconv.Itoa(e.K)
+}
+
+func (b *c01Bad) String() string { return "bad" + strconv.Itoa(b.K) }
 
 type c01Cell struct{ K int } // target of the non-nil unsafe.Pointer values
 
@@ -148,6 +171,9 @@ func init() {
 	c01Reg[float64]("f64", func(t string) float64 { return math.Float64frombits(c01Bits(t)) })
 	c01Reg[string]("s", func(t string) string { b, _ := hex.DecodeString(t[3:]); return string(b) })
 	c01Reg[c01S]("st", func(t string) c01S { return c01S{int(c01Int(t))} })
+	c01Reg[c01Node]("nd", func(t string) c01Node { return c01Node{int(c01Int(t))} })
+	c01Reg[c01Err]("er", func(t string) c01Err { return c01Err{int(c01Int(t))} })
+	c01Reg[c01Bad]("bd", func(t string) c01Bad { return c01Bad{int(c01Int(t))} })
 	c01Reg[complex64]("c64", func(t string) complex64 { return complex(float32(c01Int(t)), 1) })
 	c01Reg[complex128]("c128", func(t string) complex128 { return complex(float64(c01Int(t)), 1) })
 	c01Reg[[2]int]("ar", func(t string) [2]int { k := int(c01Int(t)); return [2]int{k, k + 1} })
@@ -208,6 +234,10 @@ func init() {
 	c01RegPtr[string]("s")
 	c01RegPtr[float64]("f64")
 	c01RegPtr[c01S]("st")
+	c01RegPtr[c01Node]("nd")
+	c01RegPtr[c01Err]("er")
+	c01RegPtr[c01Bad]("bd")
+	c01RegPtr[*c01Node]("p:nd")
 	c01RegPtr[[2]int]("ar")
 	c01RegPtr[[]int]("sl")
 	c01RegPtr[map[string]int]("mp")
@@ -306,6 +336,12 @@ func c01Render(v interface{}) string {
 		return "s:x" + hex.EncodeToString([]byte(x))
 	case c01S:
 		return "st:" + strconv.Itoa(x.K)
+	case c01Node:
+		return "nd:" + strconv.Itoa(x.K)
+	case c01Err:
+		return "er:" + strconv.Itoa(x.K)
+	case c01Bad:
+		return "bd:" + strconv.Itoa(x.K)
 	case complex64:
 		return "c64:" + strconv.Itoa(int(real(x)))
 	case complex128:
@@ -413,7 +449,8 @@ func c01Exact(tok string, depth int) bool {
 		if depth > 0 {
 			return false
 		}
-		return strings.HasPrefix(in, "st:") || strings.HasPrefix(in, "sl:") || strings.HasPrefix(in, "mp:") || strings.HasPrefix(in, "ar:")
+		return strings.HasPrefix(in, "st:") || strings.HasPrefix(in, "sl:") || strings.HasPrefix(in, "mp:") || strings.HasPrefix(in, "ar:") ||
+			strings.HasPrefix(in, "nd:") || strings.HasPrefix(in, "er:") || strings.HasPrefix(in, "bd:")
 	case strings.HasPrefix(tok, "f32:") || strings.HasPrefix(tok, "f64:") || strings.HasPrefix(tok, "c64:") || strings.HasPrefix(tok, "c128:"):
 		return false
 	case strings.HasPrefix(tok, "fn:") || strings.HasPrefix(tok, "ch:") || strings.HasPrefix(tok, "usp:"):
@@ -810,8 +847,8 @@ func c01RandVals(ty string, rng *rand.Rand, n int) []string {
 			}
 			add(h(string(b)))
 		}
-	case "st":
-		add("st:0", "st:"+small())
+	case "st", "nd", "er", "bd":
+		add(ty+":0", ty+":"+small())
 	case "c64", "c128", "ar":
 		add(ty+":0", ty+":"+small())
 	case "usp":
@@ -831,21 +868,22 @@ func c01RandVals(ty string, rng *rand.Rand, n int) []string {
 // c01Zoo: value tokens per static type
 func c01Zoo(rng *rand.Rand, n int) map[string][]string {
 	zoo := map[string][]string{}
-	base := []string{"b", "i", "i8", "i16", "i32", "i64", "u", "u8", "u16", "u32", "u64", "up", "f32", "f64", "s", "st", "sl", "mp", "fn", "ch", "c64", "c128", "ar", "usp"}
+	base := []string{"b", "i", "i8", "i16", "i32", "i64", "u", "u8", "u16", "u32", "u64", "up", "f32", "f64", "s", "st", "sl", "mp", "fn", "ch", "c64", "c128", "ar", "usp", "nd", "er", "bd"}
 	for _, t := range base {
 		zoo[t] = c01RandVals(t, rng, n)
 	}
 	pick := func(t string) string { v := zoo[t]; return v[rng.Intn(len(v))] }
-	for _, e := range []string{"i", "b", "s", "f64", "st", "sl", "mp", "ar"} {
+	for _, e := range []string{"i", "b", "s", "f64", "st", "sl", "mp", "ar", "nd", "er", "bd"} {
 		zoo["p:"+e] = []string{"np:" + e, "p(" + zoo[e][0] + ")", "p(" + pick(e) + ")", "p(" + pick(e) + ")"}
 	}
 	zoo["p:any"] = []string{"np:any", "pa(nil)", "pa(" + pick("i") + ")", "pa(np:i)", "pa(" + pick("st") + ")", "pa(just(i:1))", "pa(p(i:2))"}
 	zoo["p:p:any"] = []string{"np:p:any", "p(np:any)", "p(pa(nil))", "p(pa(" + pick("s") + "))"}
 	zoo["p:p:i"] = []string{"np:p:i", "p(np:i)", "p(p(" + pick("i") + "))"}
+	zoo["p:p:nd"] = []string{"np:p:nd", "p(np:nd)", "p(p(" + pick("nd") + "))"}
 	zoo["p:p:st"] = []string{"np:p:st", "p(np:st)", "p(p(" + pick("st") + "))"}
 	zoo["p:p:p:i"] = []string{"np:p:p:i", "p(np:p:i)", "p(p(np:i))", "p(p(p(" + pick("i") + ")))"}
 	// nested Maybe values, depth 1..3, over a mix of inner values (absent and present ones)
-	inner := []string{"nil", "np:i", "i:0", pick("i"), pick("s"), "p(" + pick("i") + ")", "p(np:i)", pick("st"), "sl:nil", "mp:nil", "fn:nil", "ch:nil", pick("f64"), "b:0", "usp:nil", pick("ar")}
+	inner := []string{"nil", "np:i", "i:0", pick("i"), pick("s"), "p(" + pick("i") + ")", "p(np:i)", pick("st"), "sl:nil", "mp:nil", "fn:nil", "ch:nil", pick("f64"), "b:0", "usp:nil", pick("ar"), "np:nd", "np:er", "np:bd", "p(" + pick("nd") + ")"}
 	var d1, d2, d3 []string
 	for _, in := range inner {
 		d1 = append(d1, "just("+in+")", "ja("+in+")")
